@@ -97,7 +97,7 @@ func genC01(c *w1Case, r *simrt.Rng, thorough bool) {
 	acts = append(acts, "panic", "multinote", "cc_learning")
 	o := genOpts{prop: "C01", nKeys: [2]int{2, 12}, nMaps: [2]int{1, 3}, notePool: []int{60, 60, 62, 64, 72, 48, 60}, offsets: r.Chance(0.5),
 		actions: acts, exitLen: -1, defaults: true, unmapProb: 0.3, remapProb: 0.3, axes: axes, axisKinds: []string{"key", "key1", "key", "cc", "cc2", "none"},
-		axisKindsPerMapping: true, handlers: 1}
+		axisKindsPerMapping: true, handlers: r.Range(1, 2), analogSubs: true}
 	c.d = baseDesc(r, o)
 	forceHatLike(c.d, r)
 	g := newScriptGen(r, c.d)
@@ -205,7 +205,7 @@ func (g *scriptGen) axisMove(r *simrt.Rng) {
 		return
 	}
 	a := as[r.Intn(len(as))]
-	g.out = append(g.out, model.Event{Kind: "abs", Handler: 0, Code: a.Code, Value: g.safeRaw(r, a)})
+	g.out = append(g.out, model.Event{Kind: "abs", Handler: g.axH[a.Code], Code: a.Code, Value: g.safeRaw(r, a)})
 }
 
 // neutralRaw finds a raw position at which the axis sounds no direction in any mapping that uses it
@@ -260,7 +260,7 @@ func (g *scriptGen) axesToCentre() {
 	for _, a := range g.axisList() {
 		if isKey[a.Code] {
 			if v, ok := g.neutralRaw(a); ok {
-				g.out = append(g.out, model.Event{Kind: "abs", Handler: 0, Code: a.Code, Value: v})
+				g.out = append(g.out, model.Event{Kind: "abs", Handler: g.axH[a.Code], Code: a.Code, Value: v})
 			}
 		}
 	}
